@@ -25,7 +25,7 @@ use tokio::sync::mpsc;
 use crate::builder_case::{build_ops, Outcome};
 use crate::payload::Fun;
 use crate::rt_case::{
-    Api, Body, CallCfg, CallEv, CallEvKind, RtCase, Run, SEv, Strat, StreamCfg,
+    Api, Body, CallCfg, CallEv, CallEvKind, MixEv, RtCase, Run, SEv, Strat, StreamCfg,
 };
 
 /// Upper bound on the polls of one settle; exceeding it is reported as status `L` (never expected:
@@ -1189,6 +1189,68 @@ fn run_body(c: &RtCase, lines: &mut Vec<String>, flags: &mut RtFlags) {
                     lines.push(format!("OBS {id} {pre}{body}"));
                 }
                 finish_call(id, pre, &mut run, lines, &mut fl);
+            }
+        }
+        Body::W(a, b, evs) => {
+            let mut ra: Option<StreamRun> = None;
+            let mut rb: Option<CallRun> = None;
+            for e in evs {
+                match e {
+                    MixEv::A(ev) => {
+                        let run = ra.get_or_insert_with(|| StreamRun::new(&g, a));
+                        if run.stopped() {
+                            continue;
+                        }
+                        let body = run.apply(ev);
+                        lines.push(format!("OBS {id} A.{body}"));
+                    }
+                    MixEv::B(ev) => {
+                        let run = rb.get_or_insert_with(|| CallRun::new(GRef::Shared(&g), b));
+                        if run.ended() {
+                            continue;
+                        }
+                        let body = run.apply(ev);
+                        lines.push(format!("OBS {id} B.{body}"));
+                    }
+                }
+            }
+            {
+                let mut run = ra.unwrap_or_else(|| StreamRun::new(&g, a));
+                flags.panic |= run.stopped();
+                let (z, t) = run.finish();
+                flags.panic |= z == "Z X";
+                lines.push(format!("OBS {id} A.{z}"));
+                lines.push(format!("OBS {id} A.{t}"));
+            }
+            {
+                let mut run = rb.unwrap_or_else(|| CallRun::new(GRef::Shared(&g), b));
+                finish_call(id, "B.", &mut run, lines, flags);
+            }
+            // Oracle of C20: each alone on its own freshly built graph.
+            if let Some(fresh) = build_graph(&c.ops) {
+                let own: Vec<SEv> = evs
+                    .iter()
+                    .filter_map(|e| match e {
+                        MixEv::A(e) => Some(e.clone()),
+                        MixEv::B(_) => None,
+                    })
+                    .collect();
+                let mut fl = RtFlags::default();
+                run_stream_events(id, "fA.", &fresh, a, &own, lines, &mut fl);
+            }
+            if let Some(fresh) = build_graph(&c.ops) {
+                let mut fl = RtFlags::default();
+                let mut run = CallRun::new(GRef::Shared(&fresh), b);
+                for e in evs {
+                    if let MixEv::B(ev) = e {
+                        if run.ended() {
+                            continue;
+                        }
+                        let body = run.apply(ev);
+                        lines.push(format!("OBS {id} fB.{body}"));
+                    }
+                }
+                finish_call(id, "fB.", &mut run, lines, &mut fl);
             }
         }
         Body::Z(a, b, evs) => {
